@@ -52,6 +52,8 @@ enum Mode
   M_SPANCTX_OTHER_TASK, // explicit SpanContext of another task's span
   M_CONTEXT_REMOTE,     // explicit Context carrying a DefaultSpan with a remote context
   M_CONTEXT_ROOT_WITH_SPAN,  // root marker AND a valid span: the span wins
+  M_CONTEXT_ROOT_FALSE,      // root key present with value false: NOT marked as root
+  M_CONTEXT_ROOT_CLEARED,    // marked as root, then the marker overwritten with false
   M_NMODES
 };
 const int kSpans = 10, kScopes = 8, kRemotes = 6;
@@ -353,6 +355,17 @@ void do_start(TaskState &ts, const Op &op)
         parent      = r->span->GetContext();
       }
       break;
+    case M_CONTEXT_ROOT_FALSE: {
+      context::Context cx;
+      opts.parent = cx.SetValue(trace_api::kIsRootSpanKey, false);
+      break;  // not marked as root and no span inside: falls back to the active span
+    }
+    case M_CONTEXT_ROOT_CLEARED: {
+      context::Context cx;
+      cx          = cx.SetValue(trace_api::kIsRootSpanKey, true);
+      opts.parent = cx.SetValue(trace_api::kIsRootSpanKey, false);
+      break;  // the newest value of the key decides: falls back to the active span
+    }
     default:
       break;
   }
@@ -654,7 +667,9 @@ std::string describe_op(const Case &, int, const Op &op)
                                 "invalid SpanContext",
                                 "SpanContext of another task's span",
                                 "Context carrying remote span",
-                                "Context marked root AND carrying own span"};
+                                "Context marked root AND carrying own span",
+                                "Context with root marker = false",
+                                "Context marked root, marker then overwritten with false"};
   switch (op.kind)
   {
     case OP_START:
@@ -704,9 +719,9 @@ const EngineDesc g_engine = {
     kShrink,
     kReal,
     kStub,
-    "one run = 1-3 tasks x 2-8 operations (StartSpan with one of ten parenting modes: implicit, "
+    "one run = 1-3 tasks x 2-8 operations (StartSpan with one of twelve parenting modes: implicit, "
     "explicit SpanContext own/remote/invalid/other task's, explicit Context with span / root "
-    "marker / neither / remote / both; Scope begin/end; End) under one of seven sampler "
+    "marker / neither / remote / both / marker false / marker cleared; Scope begin/end; End) under one of seven sampler "
     "configurations and a random or sequential id generator; remote parents carry flag bytes "
     "00 01 02 03 ff 80 and trace states; every started span is checked against the model "
     "(precedence, id inheritance / freshness / uniqueness across tasks, sampled flag = decision, "
